@@ -603,6 +603,9 @@ impl Group for C06Node {
             // small parts around the trim thresholds (offered: 497 sat, received: 507 sat at the harness feerate): listed
             // below the threshold = refused on every entry point, whatever the hash; at the threshold they count in full
             split(&format!("init 2|keysend 0 1000 {t}|cpsign 0 new - 0:400:500 p1|cpsign 0 new - 0:506:500|cpsign 0 new - 2:100:500 p1|cpsign 0 new 0:496:600 - p1|cpsign 0 new 0:497:600 -|hval 1 new 0:496:500 - p1|hval 1 new - 0:506:600|hval 1 new 0:1:500 -|hval 1 new 0:497:500 -|hval 1 new - 0:507:600 p1|cpsign 1 new - 0:507:500 p1|keysend 1 2000000 {t}|cpsign 1 new - 1:507:500,1:507:500,1:507:500,1:507:500 p1|cprevoke 1|cpsign 1 new - 1:507:500,1:507:500,1:507:500,1:507:500,1:400:500 p1|cpsign 1 new - 1:507:500,1:507:500,1:507:500,1:507:500,1:507:500")),
+            // allowlisted payee: its invoice is added although the approver says no (and then bounds the payment like any
+            // approval); a keysend to it still needs the approver; the allowlist survives a restart
+            split(&format!("init 2|invoice 0 50000000 {t} 3600 0 neg|cpsign 0 new - 0:50000:500|allowpayee|keysend 1 50000000 {t} neg|cpsign 0 new - 1:50000:500|invoice 0 50000000 {t} 3600 0 neg|cpsign 0 new - 0:50000:500|cpsign 1 new - 0:600:500|restart|invoice 2 2000000 {t} 3600 1 neg|cpsign 1 new - 2:2200:500|cprevoke 1|cpsign 1 new - 2:2221:500")),
             // u64 extreme approval: a + max_routing_fee overflows
             split(&format!("init 2|keysend 0 18446744073709551615 {t}|cpsign 0 new - 0:2000:500|cpsign 1 new - -")),
         ]
@@ -630,6 +633,10 @@ impl Group for C06Node {
                 _ => line,
             }
         };
+        // one world in six: the payee is on the allowlist (its invoices need no approver, its keysends still do)
+        if rng.chance(1, 6) {
+            ops.push("allowpayee".into());
+        }
         let mut sims: Vec<Sim> = vec![Sim::default(); nch];
         // cases with u64-extreme approvals (overflow panics) use plain cltv values only, see random_htlc
         let extreme = rng.chance(1, 6);
@@ -1052,6 +1059,16 @@ fn exec_op(w: &mut World, t: &[&str], at: usize, co: &mut CaseOut) -> Option<(St
             }
             w.note_answer(h, r.ok(), amt, now + expiry + INVOICE_PRUNE_TIME, co);
             Some((cls, false))
+        }
+        ["allowpayee"] => {
+            // the payee of every invoice of the harness (the key the invoices are signed with) and of every keysend goes
+            // on the node's allowlist: `handle_proposed_invoice` then adds its invoices without asking the approver,
+            // `handle_proposed_keysend` still asks
+            let key = SecretKey::from_slice(&[42; 32]).unwrap();
+            let pk = PublicKey::from_secret_key(&Secp256k1::new(), &key);
+            let ks = make_test_pubkey(1);
+            w.ctx.node.add_allowlist(&[format!("payee:{}", pk), format!("payee:{}", ks)]).ok()?;
+            Some(("ok".into(), false))
         }
         ["cpsign", c, kind, off, rcv, ph @ ..] => {
             let phase1 = match ph {
